@@ -238,7 +238,7 @@ func (w *World) Explore(spec HarnessSpec) (*Report, error) {
 				rep.Queries += out.Queries
 				rep.SymAsserts += out.SymAssert
 				rep.Unknowns += out.Unknowns
-				if out.SymAssert > 0 {
+				if out.SymVars > 0 && len(out.Asserts) > 0 {
 					rep.NonTrivial++
 				}
 				for k, v := range out.Asserts {
@@ -400,6 +400,7 @@ func (w *World) runPath(fn *ssa.Function, prefix []Decision, cfg *Config, sol *S
 		}
 		in.killCoros()
 		out.Decisions = in.ps.taken
+		out.SymVars = len(in.st.Vars)
 		out.Choices = strings.Join(in.ps.choices, " ")
 		out.Steps = in.stats.steps
 		out.Queries = sol.Queries - q0
